@@ -49,9 +49,21 @@ TamperTotal == \A lab \in Labelings : LET e == EncGraph(G(lab)) IN
                  /\ \A x \in {n + 1, n + 2, 16384} : IsBig =>
                       Verdict(SubSeq(e.b, 1, Len(e.b) - BackRefLen) \o VarU(x)) = <<"err", "BadRefId">>
 
+\* identity is the object, not its address: a record D, its first member H (same address, another type) and an
+\* unrelated E are three objects; every sequence of up to four offers of them
+Objs3 == {"D", "H", "E"}
+OfferSeqs == UNION {[1..k -> Objs3] : k \in 1..4}
+RECURSIVE OfferBytes(_, _, _)
+OfferBytes(s, i, tab) ==
+  IF i > Len(s) THEN <<>>
+  ELSE LET id == IdIn(tab, s[i]) IN
+       IF id # 0 THEN VarU(id) \o OfferBytes(s, i + 1, tab) ELSE VarU(0) \o OfferBytes(s, i + 1, Append(tab, s[i]))
+OffersDistinct == \A s \in OfferSeqs : Len(OfferBytes(s, 1, <<>>)) = Len(s)      \* at most 3 objects: one byte per offer
+Offers == IF n = 1 /\ succ[1] = <<>> THEN {<<s, OfferBytes(s, 1, <<>>)>> : s \in OfferSeqs} ELSE {}
+
 Case(lab) == LET e == EncGraph(G(lab)) IN
   [g |-> G(lab), b |-> e.b, canon |-> Canon(G(lab)),
    tampers |-> {<<t[1], t[2], Verdict([e.b EXCEPT ![t[1]] = t[2]])>> : t \in Tampered(e)},
    tails |-> {<<Len(e.b) - BackRefLen, t, Verdict(SubSeq(e.b, 1, Len(e.b) - BackRefLen) \o t)>> : t \in Tails(e)}]
-EmitCases == PrintT(<<"REPLAY", ToJson([cases |-> {Case(lab) : lab \in Labelings}])>>)
+EmitCases == PrintT(<<"REPLAY", ToJson([cases |-> {Case(lab) : lab \in Labelings}, offers |-> Offers])>>)
 =============================================================================
